@@ -40,7 +40,7 @@ class RunTooBig(BaseException):
 
 MAX_ENTERS = 4000
 RD_KINDS = ("bad_period_long", "raise_any", "raise_after", "bad_var", "bad_entity", "bad_period", "add_divide", "bad_option")
-LEAVE_KINDS = ("raise_any", "raise", "bad_len", "bad_dtype", "bad_enum")
+LEAVE_KINDS = ("raise_any", "raise", "bad_len", "bad_dtype", "bad_enum", "bad_enum_index")
 
 
 class Frame:
@@ -182,6 +182,10 @@ class Frame:
                 result = numpy.array(["not-a-number"] * ctx.count_of(self.var), dtype=object)
             elif kind == "bad_enum":
                 result = numpy.array(["no_such_member"] * ctx.count_of(self.var))
+            elif kind == "bad_enum_index":
+                # raw codes instead of indices: all past the last member, some of them a
+                # multiple of 256 away from a valid index
+                result = numpy.array([256 + (k % 3) for k in range(ctx.count_of(self.var))], dtype=numpy.int64)
             # the formula "returned", but what it returned cannot be stored:
             # its computation does not count as completed
             self.result = result
